@@ -32,6 +32,41 @@ pub fn dump_deb(d: &Deb822) -> String {
 
 pub fn handle(op: &str, a: &[&str]) -> Option<Resp> {
     match (op, a) {
+        // Deb822::read_relaxed / read over raw bytes (valid UTF-8 or not): `io` = Err(io error);
+        // otherwise the printed bytes, the number of errors and the class of the strict reader
+        ("deb.readbytes", [t]) => {
+            let bytes = dbytes(t)?;
+            let valid = std::str::from_utf8(&bytes).is_ok();
+            let strict = match Deb822::read(&bytes[..]) {
+                Ok(_) => "ok",
+                Err(deb822_lossless::Error::IoError(_)) => "io",
+                Err(_) => "err",
+            };
+            let mut fail = None;
+            let obs = match Deb822::read_relaxed(&bytes[..]) {
+                Err(_) => {
+                    if valid {
+                        fail = Some("read_relaxed fails on valid UTF-8".to_string());
+                    }
+                    format!("io {}", strict)
+                }
+                Ok((d, errs)) => {
+                    let printed = d.to_string();
+                    if !valid {
+                        fail = Some("read_relaxed accepts bytes that are not UTF-8".to_string());
+                    } else if printed.as_bytes() != &bytes[..] {
+                        fail = Some("read_relaxed(bytes).to_string() is not the input bytes".to_string());
+                    } else if (strict == "ok") != errs.is_empty() {
+                        fail = Some("read(bytes).is_ok() != read_relaxed errors.is_empty()".to_string());
+                    }
+                    format!("ok x{} {} {}", hex(printed.as_bytes()), errs.len(), strict)
+                }
+            };
+            if (strict == "io") == valid && fail.is_none() {
+                fail = Some("read: io error exactly when the bytes are not UTF-8 is violated".to_string());
+            }
+            Some(Resp::with(obs, fail))
+        }
         ("deb.read", [t]) => {
             let s = ds(t)?;
             let (d, errs) = Deb822::from_str_relaxed(&s);
@@ -501,6 +536,18 @@ pub fn generate_c03(tier: &str, seed: u64, out: &mut Out) {
 pub fn generate_c01(tier: &str, seed: u64, out: &mut Out) {
     for t in gen_texts(tier, seed) {
         out.req("deb.read", &[es(&t)]);
+    }
+    // raw byte inputs: valid texts and every way of breaking UTF-8 (truncated sequences, stray
+    // continuation bytes, overlong forms, surrogates, 0xff) at the start, inside a value, at the end
+    let bad: [&[u8]; 9] = [b"\xc3", b"\xa9", b"\xe2\x82", b"\xf0\x9f\x98", b"\xc0\xaf", b"\xed\xa0\x80", b"\xff", b"\xf8\x88\x80\x80\x80", b"\xc3\x28"];
+    let frames: [(&[u8], &[u8]); 5] = [(b"", b""), (b"A: ", b"\n"), (b"A: b\n ", b""), (b"", b": x\n"), (b"# ", b"\n\nB: c")];
+    for (pre, post) in frames.iter() {
+        for ins in bad.iter().chain([&b"\xc3\xa9"[..], &b"\xf0\x9f\x98\x80"[..], &b""[..]].iter()) {
+            let mut v = pre.to_vec();
+            v.extend_from_slice(ins);
+            v.extend_from_slice(post);
+            out.req("deb.readbytes", &[format!("x{}", hex(&v))]);
+        }
     }
     // long inputs whose multi-byte characters lie across every power-of-two block boundary up to
     // 16 KiB (a reader that decodes block by block would split them)
